@@ -17,6 +17,7 @@ TileOk(e) == LET t == T3(e.t) IN
    /\ e.qk = QuadDigits(t) /\ T3(e.fromqk) = t
    /\ T3(e.parent) = Parent(t)
    /\ Len(e.children) = 4 /\ {T3(c) : c \in ToSet(e.children)} = Children(t)
+   /\ (Valid(t) => e.cvalid = 1)               \* ... valid tiles whose parent is the tile; the tile's own parent is valid
    /\ {T3(c) : c \in ToSet(e.siblings)} = Children(Parent(t)) /\ Len(e.siblings) = 4
    /\ \A i \in 1..Len(e.ranges) : LET r == e.ranges[i] IN <<T3(r.min), T3(r.max)>> = RangeOf(t, r.z)
    /\ \A i \in 1..Len(e.czr) : LET c == e.czr[i] IN
